@@ -44,6 +44,8 @@ func (s cliShape) flags() []string {
 		}
 	case "set+setkeys":
 		f = append(f, "-set", "-setkeys=id")
+	case "mset+setkeys":
+		f = append(f, "-mset", "-setkeys", "id")
 	}
 	if s.yaml {
 		f = append(f, "-yaml")
@@ -62,7 +64,7 @@ func (s cliShape) flags() []string {
 
 var cliShapes = func() []cliShape {
 	var out []cliShape
-	for _, arr := range []string{"", "set", "mset", "setkeys", "set+setkeys"} {
+	for _, arr := range []string{"", "set", "mset", "setkeys", "set+setkeys", "mset+setkeys"} {
 		for _, yaml := range []bool{false, true} {
 			for _, color := range []bool{false, true} {
 				for _, prec := range []bool{false, true} {
@@ -81,7 +83,7 @@ var cliShapes = func() []cliShape {
 }()
 
 func (s cliShape) v2opts() ([]jd.Option, bool) {
-	if s.precision && (s.arr == "set" || s.arr == "mset" || s.arr == "set+setkeys") {
+	if s.precision && (s.arr == "set" || s.arr == "mset" || s.arr == "set+setkeys" || s.arr == "mset+setkeys") {
 		return nil, false
 	}
 	var o []jd.Option
@@ -98,6 +100,8 @@ func (s cliShape) v2opts() ([]jd.Option, bool) {
 		}
 	case "set+setkeys":
 		o = append(o, jd.SET, jd.SetKeys("id"))
+	case "mset+setkeys":
+		o = append(o, jd.MULTISET, jd.SetKeys("id")) // the order the documented option list gives: -mset before -setkeys
 	}
 	if s.format == "merge" {
 		o = append(o, jd.MERGE)
@@ -111,7 +115,7 @@ func (s cliShape) v2opts() ([]jd.Option, bool) {
 }
 
 func (s cliShape) v1md() ([]lib.Metadata, bool) {
-	if s.precision && (s.arr == "set" || s.arr == "mset" || s.arr == "set+setkeys") {
+	if s.precision && (s.arr == "set" || s.arr == "mset" || s.arr == "set+setkeys" || s.arr == "mset+setkeys") {
 		return nil, false
 	}
 	var o []lib.Metadata
@@ -128,6 +132,8 @@ func (s cliShape) v1md() ([]lib.Metadata, bool) {
 		}
 	case "set+setkeys":
 		o = append(o, lib.SET, lib.Setkeys("id"))
+	case "mset+setkeys":
+		o = append(o, lib.MULTISET, lib.Setkeys("id"))
 	}
 	if s.format == "merge" {
 		o = append(o, lib.MERGE)
@@ -493,7 +499,7 @@ func c14PatchCase(c *mon.Ctx, s cliShape, bin Binary, a, b any) {
 		if !bin.V1 {
 			reading = ref.Set
 		}
-	case "mset":
+	case "mset", "mset+setkeys":
 		reading = ref.Multiset
 	}
 	okEq := err == nil && ref.Eq(back, b, reading)
@@ -515,14 +521,30 @@ func c14PatchCase(c *mon.Ctx, s cliShape, bin Binary, a, b any) {
 	}
 }
 
+// legal JSON texts in unusual spellings
+var jsonSpellings = []string{
+	`{"k":"\ud83d\ude00"}`, `{"k":"a\/b"}`, `["\u0041\u00e9\u2028"]`, "\"a\x7fb\"", "{\"k\":\"a\u0085b\"}", "{\"a\u0085\":1}", `{"a":-0}`, `[-0.0,0]`, `[1E3,1.0,1e-7,100000000000000000000,1.5e300]`,
+	"{\n\t\"a\": [\n\t\t1,\n\t\t2\n\t],\n\t\"b\": {}\n}\n", "  [1, 2]  ", `"x"`, `null`, `true`, `12`, `""`, `{}`, `[]`, `{"":""}`,
+	`{"` + strings.Repeat("k", 1100) + `":1}`, `{"k":"` + strings.Repeat("v", 70000) + `"}`, `["\ud83d"]`, `{"a":1,"a":2}`, `[1,]`, `{"a":1}{"b":2}`, "\ufeff[1]",
+	`{"y":"n","on":"off","~":"null","1":"2","0x1f":"0o17","2001-01-01":"1:30"}`, "[\"line1\\nline2\\n\", \" lead\", \"trail \", \"\\ttab\"]",
+}
+
+// YAML texts beyond the plain subset
+var yamlSpellings = []string{
+	"a: |\n  line1\n  line2\n", "a: |-\n  x\n", "a: >\n  folded\n  text\n", "a: |+\n  keep\n\n", "- &x 1\n- *x\n", "base: &b {k: 1}\nuse: *b\n", "a: !!str 1\nb: !!int \"2\"\n",
+	"---\na: 1\n", "a: 1\n...\n", "---\na: 1\n---\nb: 2\n", "# comment\na: 1 # trailing\n", "[1, 2, {a: b}]\n", "{a: [1, 2], b: {c: d}}\n", "a: 0x1f\nb: 0o17\nc: 017\nd: 1_000\ne: 1:30\n",
+	"a: y\nb: n\nc: on\nd: off\ne: Yes\nf: NO\n", "a: ~\nb: null\nc: Null\nd:\n", "a: .inf\n", "a: -.inf\n", "a: .nan\n", "? complex\n: value\n", "1: a\n2.5: b\ntrue: c\n", "a: 2001-01-01\nb: 2001-01-01T00:00:00Z\n",
+	"a: \"\\x41\\u00e9\\U0001F600\"\n", "a: 'it''s'\n", "", "\n", "a: 1\na: 2\n", "a:\n- 1\n- 2\nb:\n  - 3\n", "\ta: 1\n", "a: [1, 2\n",
+}
+
 func init() {
 	p := &mon.Property{
 		ID: "C14",
-		Rule: "process runs of the three binaries (v2/jd, jd, jd -v2=false): every combination of {-set,-mset,-setkeys,-set -setkeys} x -yaml x -color x -precision x -f {none,jd,patch,merge} x -o x {file,stdin} (640 diff-mode shapes, 320 patch-mode shapes) x a panel of document pairs, translate modes, -git-diff-driver and error cases; " +
+		Rule: "process runs of the three binaries (v2/jd, jd, jd -v2=false): every combination of {-set,-mset,-setkeys,-set -setkeys,-mset -setkeys} x -yaml x -color x -precision x -f {none,jd,patch,merge} x -o x {file,stdin} (768 diff-mode shapes, 384 patch-mode shapes) x a panel of document pairs, translate modes (incl. json2yaml / yaml2json on a table of legal but unusual JSON and YAML spellings), -git-diff-driver and error cases; " +
 			"each run is compared with a CLI model that maps the flags to the documented library calls: exit status, stdout bytes, -o file bytes (stdout empty), stdin vs file; the patch-mode leg feeds the library's diff to `jd -p` and requires the output to equal the library rendering and to reproduce b; " +
 			"non-trivial = every run; distinct = distinct (shape, binary, inputs)",
 		Floors: map[string]int{"cli_runs": 5000, "status_0": 500, "status_1": 500, "status_2": 200, "with_-o": 1000, "-o_onto_existing_longer_file": 500, "stdin_vs_file_pairs": 100, "setkeys_spellings": 100, "in_place_-o": 10, "second_input_from_stdin": 1000, "colour_output": 300, "patch_mode_runs": 1000,
-			"pipeline_reproduces_b:jd": 300, "pipeline_reproduces_b:patch": 50, "pipeline_reproduces_b:merge": 50, "pipeline_yaml": 200, "translate_runs": 120, "git_diff_driver_runs": 15, "error_cases": 200},
+			"pipeline_reproduces_b:jd": 300, "pipeline_reproduces_b:patch": 50, "pipeline_reproduces_b:merge": 50, "pipeline_yaml": 200, "translate_runs": 120, "translate_spelling_runs": 150, "git_diff_driver_runs": 15, "error_cases": 200},
 		Assumptions: []string{
 			"the CLI model (props/c14.go modelDiff / modelPatch) encodes the documented mapping: flags -> options, -f -> renderer / reader, status 0 no difference / 1 difference / 2 error",
 			"-precision together with -set / -mset is a documented refusal (status 2)",
@@ -532,9 +554,15 @@ func init() {
 	}
 	const pairsQ, pairsT = 3, 60
 	p.Strata = append(p.Strata, mon.Stratum{
-		Name:       "diff-mode-all-flag-combinations",
-		CLI:        true,
-		N:          func(t mon.Tier) int { k := pairsQ; if t == mon.Thorough { k = pairsT }; return len(cliShapes) * len(Binaries) * k },
+		Name: "diff-mode-all-flag-combinations",
+		CLI:  true,
+		N: func(t mon.Tier) int {
+			k := pairsQ
+			if t == mon.Thorough {
+				k = pairsT
+			}
+			return len(cliShapes) * len(Binaries) * k
+		},
 		Exhaustive: always,
 		Run: func(c *mon.Ctx, i int) {
 			s := cliShapes[i%len(cliShapes)]
@@ -549,9 +577,15 @@ func init() {
 		},
 	})
 	p.Strata = append(p.Strata, mon.Stratum{
-		Name:       "patch-mode-all-flag-combinations",
-		CLI:        true,
-		N:          func(t mon.Tier) int { k := pairsQ; if t == mon.Thorough { k = pairsT }; return len(cliShapes) / 2 * len(Binaries) * k },
+		Name: "patch-mode-all-flag-combinations",
+		CLI:  true,
+		N: func(t mon.Tier) int {
+			k := pairsQ
+			if t == mon.Thorough {
+				k = pairsT
+			}
+			return len(cliShapes) / 2 * len(Binaries) * k
+		},
 		Exhaustive: always,
 		Run: func(c *mon.Ctx, i int) {
 			half := len(cliShapes) / 2
@@ -710,6 +744,86 @@ func init() {
 			}
 			if err != nil || !ref.Eq(back, bv, ref.List) {
 				c.Violation("print-then-patch does not reproduce b (content with significant trailing white space)", map[string]any{"patched": p1.Stdout, "b": ref.ToJSON(bv)})
+			}
+		},
+	})
+	p.Strata = append(p.Strata, mon.Stratum{
+		Name:       "translate-json-yaml-spellings",
+		CLI:        true,
+		N:          n(len(jsonSpellings)*3 + len(yamlSpellings)*3),
+		Exhaustive: always,
+		Run: func(c *mon.Ctx, i int) {
+			// -t json2yaml / yaml2json on legal but unusual spellings: the binaries print what the
+			// library's reader for THAT format followed by the other renderer gives
+			bin := Binaries[i%3]
+			k := i / 3
+			mode, in := "json2yaml", ""
+			if k < len(jsonSpellings) {
+				in = jsonSpellings[k]
+			} else {
+				mode, in = "yaml2json", yamlSpellings[k-len(jsonSpellings)]
+			}
+			c.Input("binary", bin.Name)
+			c.Input("translate", mode)
+			c.Input("text", in)
+			c.Feature("translate_spelling_runs")
+			c.Nontrivial(joinKey("spell", bin.Name, mode, in))
+			want, st := "", 0
+			if pan := mon.Safe(func() {
+				switch {
+				case bin.V1 && mode == "json2yaml":
+					n, err := lib.ReadJsonString(in)
+					if err != nil {
+						st = 2
+					} else {
+						want = n.Yaml()
+					}
+				case bin.V1:
+					n, err := lib.ReadYamlString(in)
+					if err != nil {
+						st = 2
+					} else {
+						want = n.Json()
+					}
+				case mode == "json2yaml":
+					n, err := jd.ReadJsonString(in)
+					if err != nil {
+						st = 2
+					} else {
+						want = n.Yaml()
+					}
+				default:
+					n, err := jd.ReadYamlString(in)
+					if err != nil {
+						st = 2
+					} else {
+						want = n.Json()
+					}
+				}
+			}); pan != "" {
+				c.Skip("the library panics on this text (C13 owns crashes)")
+				return
+			}
+			for _, viaStdin := range []bool{false, true} {
+				args, stdin, files := []string{"-t", mode, "in.txt"}, "", map[string]string{"in.txt": in}
+				if viaStdin {
+					args, stdin, files = []string{"-t", mode}, in, nil
+				}
+				res := RunCLI(c, bin, args, stdin, files)
+				c.Feature("cli_runs")
+				extra := map[string]any{"argv": fmt.Sprint(args), "status": res.Status, "stdout": res.Stdout, "stderr": res.Stderr, "model_status": st, "model_output": want}
+				if HasCrashMarkers(res.Stderr) {
+					c.Violation("the CLI crashed", extra)
+					return
+				}
+				if res.Status != st {
+					c.Violation(fmt.Sprintf("-t %s: exit status %d, the library reads and renders this text with status %d", mode, res.Status, st), extra)
+					return
+				}
+				if st == 0 && strings.TrimRight(res.Stdout, "\n") != strings.TrimRight(want, "\n") {
+					c.Violation("-t "+mode+": output differs from what the library renders", extra)
+					return
+				}
 			}
 		},
 	})
